@@ -51,6 +51,7 @@ amap_f = z3.Function("Amap", z3.ArraySort(I, V.RefSort), IS)   # Amap C i = A (C
 L_uf = z3.Function("L!type", V.RefSort, S)                      # ghost: the Specification's bit length set of a type
 A_uf = z3.Function("A!type", V.RefSort, I)                      # ghost: the Specification's alignment of a type
 sfold_f = z3.Function("sfold", SS, IS, I, S)                    # struct layout fold over the first n fields
+sfold_hint = z3.Function("unfold!sfold", SS, IS, I, B)          # trigger marker: "unfold sfold at n" (no meaning of its own)
 
 # witness (skolem) functions
 w_mod = z3.Function("w_mod", S, I, I, I)
@@ -106,6 +107,8 @@ def prelude() -> List[Tuple[str, str, Any]]:
     # involve the set theory (see Engine.relevant_prelude): it is needed for plain arithmetic goals only
     add("pmod-builtin", "definitional: pmod(x,d) = x mod d",
         FA([x, d], Imp(d > 0, pmod(x, d) == x % d), patterns=[pmod(x, d)]))
+    add("pmod-const", "definitional instances of pmod for the constant divisors 1 and 8 (linear arithmetic)",
+        And(FA([x], pmod(x, 1) == 0, patterns=[pmod(x, 1)]), FA([x], pmod(x, 8) == x % 8, patterns=[pmod(x, 8)])))
     add("pmod-idem", "Nat.mod_mod", FA([x, d], Imp(d > 0, pmod(pmod(x, d), d) == pmod(x, d)),
                                        patterns=[pmod(pmod(x, d), d)]))
     add("pad-def", "definitional (Lean Pydsdl.pad): pad r x = (x + r - 1) / r * r; with Basic.pad_dvd, le_pad, pad_lt",
@@ -176,6 +179,12 @@ def prelude() -> List[Tuple[str, str, Any]]:
         FA([C, i], sel(amap_f(C), i) == A_uf(sel(C, i)), patterns=[sel(amap_f(C), i), MP(A_uf(sel(C, i)), amap_f(C))]))
     add("sfold-zero", "definitional: SFold [] = {0}", FA([F, M], sfold_f(F, M, 0) == singleton_f(0),
                                                         patterns=[sfold_f(F, M, 0)]))
+    add("sfold-succ", "definitional: SFold(fs ++ [f]) = sumset(padset(SFold(fs), A f), L f); instantiated only where a "
+                      "specification asks for it (trigger marker unfold!sfold, an uninterpreted predicate without axioms)",
+        FA([F, M, n], Imp(n >= 0, sfold_f(F, M, n + 1) == sumset_f(padset_f(sfold_f(F, M, n), sel(M, n)), sel(F, n))),
+           patterns=[sfold_hint(F, M, n)]))
+    add("sfold-one", "Lean Layout.sfold_one: the first field of a structure is never padded, SFold [f] = L f",
+        FA([F, M], Imp(sel(M, 0) >= 1, sfold_f(F, M, 1) == sel(F, 0)), patterns=[sfold_f(F, M, 1)]))
     add("minmap", "definitional", FA([F, i], sel(minmap(F), i) == smin(sel(F, i)), patterns=[sel(minmap(F), i)]))
     add("maxmap", "definitional", FA([F, i], sel(maxmap(F), i) == smax(sel(F, i)), patterns=[sel(maxmap(F), i)]))
 
@@ -195,6 +204,9 @@ def prelude() -> List[Tuple[str, str, Any]]:
            patterns=[minseq(M, n)]))
     add("minseq-le", "definitional",
         FA([M, n, i], Imp(And(0 <= i, i < n), minseq(M, n) <= sel(M, i)), patterns=[MP(minseq(M, n), sel(M, i))]))
+    add("minmaxseq-first", "definitional instances (i = 0) of minseq-le / maxseq-ge",
+        FA([M, n], Imp(n >= 1, And(minseq(M, n) <= sel(M, 0), maxseq(M, n) >= sel(M, 0))),
+           patterns=[minseq(M, n), maxseq(M, n)]))
     add("maxseq-def", "definitional: maximum of a non-empty list",
         FA([M, n], Imp(n >= 1, And(0 <= w_maxseq(M, n), w_maxseq(M, n) < n, maxseq(M, n) == sel(M, w_maxseq(M, n)))),
            patterns=[maxseq(M, n)]))
@@ -515,5 +527,5 @@ def LCM(a, b):
 
 
 def sfold_unfold(F, M, n):
-    """Definitional instance: SFold(fs ++ [f]) = sumset(padset(SFold(fs), A f), L f), for the field with index n."""
-    return sfold_f(F, M, n + 1) == sumset_f(padset_f(sfold_f(F, M, n), z3.Select(M, n)), z3.Select(F, n))
+    """Trigger atom asking the solver to unfold the definition of SFold at index n (axiom sfold-succ)."""
+    return sfold_hint(F, M, _i(n))
